@@ -39,6 +39,13 @@ struct DealerSocketOutgoingProcessor {
   pending_queue: Arc<TokioMutex<VecDeque<FrameBatch>>>,
   outgoing_orchestrator: Arc<OutgoingMessageOrchestrator>,
   queue_activity_notifier: Arc<Notify>,
+  /// Signalled whenever a message leaves the pending queue: senders blocked on a full queue
+  /// wait on this one, so they can neither miss the event nor steal the processor's wake-up.
+  queue_space_notifier: Arc<Notify>,
+  /// True from the moment the processor takes a message off the pending queue (set under the
+  /// queue lock) until that message has been routed or put back: a direct send must not slip
+  /// past a message the processor is still holding.
+  routing_in_progress: Arc<std::sync::atomic::AtomicBool>,
   peer_availability_notifier: Arc<Notify>,
   stop_signal: Arc<Notify>,
 }
@@ -72,6 +79,10 @@ impl DealerSocketOutgoingProcessor {
           let mut queue_guard = self.pending_queue.lock().await;
           if !queue_guard.is_empty() && self.outgoing_orchestrator.has_connections() {
             current_message_to_send_option = queue_guard.pop_front();
+            self
+              .routing_in_progress
+              .store(true, std::sync::atomic::Ordering::Release);
+            self.queue_space_notifier.notify_waiters();
           }
         }
       }
@@ -85,6 +96,9 @@ impl DealerSocketOutgoingProcessor {
 
         match self.outgoing_orchestrator.route_message(zmtp_frames_for_logical_message, false).await {
           Ok(()) => {
+            self
+              .routing_in_progress
+              .store(false, std::sync::atomic::Ordering::Release);
             // One wake-up may stand for several queued messages; keep draining.
             if !self.pending_queue.lock().await.is_empty() {
               self.queue_activity_notifier.notify_one();
@@ -96,6 +110,9 @@ impl DealerSocketOutgoingProcessor {
               self.core_handle
             );
             self.pending_queue.lock().await.push_front(returned);
+            self
+              .routing_in_progress
+              .store(false, std::sync::atomic::Ordering::Release);
             self.queue_activity_notifier.notify_one();
           }
         }
@@ -123,6 +140,8 @@ pub(crate) struct DealerSocket {
   pipe_read_to_endpoint_uri: ParkingLotRwLock<HashMap<usize, String>>,
   pending_outgoing_queue: Arc<TokioMutex<VecDeque<FrameBatch>>>,
   outgoing_queue_activity_notifier: Arc<Notify>,
+  queue_space_notifier: Arc<Notify>,
+  routing_in_progress: Arc<std::sync::atomic::AtomicBool>,
   peer_availability_notifier: Arc<Notify>,
   processor_task_handle: TokioMutex<Option<JoinHandle<()>>>,
   processor_stop_signal: Arc<Notify>,
@@ -135,6 +154,8 @@ impl DealerSocket {
     let pending_queue_arc = Arc::new(TokioMutex::new(VecDeque::new()));
     let orchestrator_arc = Arc::new(OutgoingMessageOrchestrator::new());
     let queue_notifier_arc = Arc::new(Notify::new());
+    let queue_space_arc = Arc::new(Notify::new());
+    let routing_flag_arc = Arc::new(std::sync::atomic::AtomicBool::new(false));
     let peer_notifier_arc = Arc::new(Notify::new());
     let stop_signal_arc = Arc::new(Notify::new());
 
@@ -143,6 +164,8 @@ impl DealerSocket {
       pending_queue: pending_queue_arc.clone(),
       outgoing_orchestrator: orchestrator_arc.clone(),
       queue_activity_notifier: queue_notifier_arc.clone(),
+      queue_space_notifier: queue_space_arc.clone(),
+      routing_in_progress: routing_flag_arc.clone(),
       peer_availability_notifier: peer_notifier_arc.clone(),
       stop_signal: stop_signal_arc.clone(),
     };
@@ -158,6 +181,8 @@ impl DealerSocket {
       pipe_read_to_endpoint_uri: ParkingLotRwLock::new(HashMap::new()),
       pending_outgoing_queue: pending_queue_arc,
       outgoing_queue_activity_notifier: queue_notifier_arc,
+      queue_space_notifier: queue_space_arc,
+      routing_in_progress: routing_flag_arc,
       peer_availability_notifier: peer_notifier_arc,
       processor_task_handle: TokioMutex::new(Some(processor_jh)),
       processor_stop_signal: stop_signal_arc,
@@ -613,7 +638,13 @@ impl DealerSocket {
 
     // Messages already parked in the pending queue were accepted earlier and must reach the
     // peer first: a new message queues up behind them instead of overtaking them.
-    let has_pending = !self.pending_outgoing_queue.lock().await.is_empty();
+    let has_pending = {
+      let queue_guard = self.pending_outgoing_queue.lock().await;
+      !queue_guard.is_empty()
+        || self
+          .routing_in_progress
+          .load(std::sync::atomic::Ordering::Acquire)
+    };
     if has_pending {
       return self
         .queue_message_or_error(zmtp_wire_frames, global_sndhwm, global_sndtimeo)
@@ -645,6 +676,11 @@ impl DealerSocket {
           "Socket is closing while trying to queue".into(),
         ));
       }
+      // Register for "space freed" before looking at the queue, so a message leaving the
+      // queue between the check and the wait is not missed.
+      let space_freed = self.queue_space_notifier.notified();
+      tokio::pin!(space_freed);
+      space_freed.as_mut().enable();
       {
         let mut queue_guard = self.pending_outgoing_queue.lock().await;
         if queue_guard.len() < global_sndhwm {
@@ -656,8 +692,7 @@ impl DealerSocket {
       match global_sndtimeo {
         Some(duration) if duration.is_zero() => return Err(ZmqError::ResourceLimitReached),
         Some(duration) => {
-          let queue_wait_fut = self.outgoing_queue_activity_notifier.notified();
-          if tokio_timeout(duration, queue_wait_fut).await.is_err() {
+          if tokio_timeout(duration, space_freed).await.is_err() {
             return Err(ZmqError::Timeout);
           }
         }
@@ -667,7 +702,7 @@ impl DealerSocket {
             _ = async { if !self.core.is_running() { futures::future::pending().await } else { futures::future::pending().await } } => {
               return Err(ZmqError::InvalidState("Socket is closing while waiting for queue space".into()));
             }
-            _ = self.outgoing_queue_activity_notifier.notified() => {}
+            _ = space_freed => {}
             _ = self.peer_availability_notifier.notified() => {}
           }
         }
